@@ -141,6 +141,11 @@ def main(out: str) -> None:
         type_mapping = {k.name: v for k, v in getattr(G, "TYPE_MAPPING", {}).items() if isinstance(k, enum.Enum) and isinstance(v, str)}
 
         dialects[name] = {
+            "str_tables": {
+                a: dict(v) for a in dir(d) if a.isupper() and not a.startswith("_")
+                for v in [getattr(d, a)]
+                if isinstance(v, dict) and v and all(isinstance(k, str) and isinstance(x, str) for k, x in v.items())
+            },
             "functions": functions,
             "func_render": func_render,
             "type_mapping": type_mapping,
